@@ -106,8 +106,8 @@ def c01(tier):
                 "non-trivial when it has >=2 frames or a frame cut across reads")
     chk.assumptions = [
         "expected result of a frame = serde_json decoding that frame alone (the statement's own definition)",
-        "whitespace-only frames are not generated (the statement's 'JSON document ... or decode error' "
-        "does not say whether they are end-of-stream or a decode error)",
+        "a frame that holds nothing but JSON whitespace owes one error result of its own; zlink reports it with "
+        "its end-of-stream variant, which is tolerated for exactly these frames (Framing acls)",
     ]
     _model(chk, "MCReadConn", "MCReadConn_a.cfg", "a-2frames-body9", coverage=thorough)
     _model(chk, "MCReadConn", "MCReadConn_c.cfg", "c-limit8", coverage=thorough)
@@ -153,6 +153,10 @@ def c07(tier):
     chk.extra["cancels_executed"] = summ.get("cancels")
     run_family(chk, "framing", "small", ["--seed", s + 1, "--n", 12000 if thorough else 1000, "--cancels"],
                [FT], "small-random")
+    # the server's select loop drops every pending receive whenever any of its arms completes: calls of
+    # several connections that are readable at the same moment, in pieces, must all reach the service once
+    run_family(chk, "server", "prod", ["--seed", s + 2, "--n", 6000 if thorough else 800, "--mode", "healthy"],
+               [("ServerTrace", "ServerTrace.cfg")], "server-loop")
     chk.nontrivial = chk.traces_ok
     return chk.finish()
 
